@@ -25,9 +25,9 @@ RULE = ("case = (mode, V, mask, method/script, options); non-trivial if the mask
         "monitor_counters: rows/entries checked, gradient entries checked, nested hand-offs")
 ASSUMPTIONS = ["initial values inside the bounds", "nested cases use no variable transform (domain convention of the hand-off is user code)"]
 REQUIRED = {"quick": {"evaluator_rows_checked": 20000, "fixed_entries_checked": 30000, "gradient_fixed_entries_checked": 2000, "result_vectors_checked": 5000,
-                      "algorithm_vectors_checked": 3000, "nested_handoffs": 150, "nested_rows_after_handoff": 1000, "__nontrivial__": 300},
+                      "algorithm_vectors_checked": 3000, "nested_handoffs": 150, "nested_rows_after_handoff": 1000, "explicit_start_vector": 100, "__nontrivial__": 300},
             "thorough": {"evaluator_rows_checked": 600000, "fixed_entries_checked": 1000000, "gradient_fixed_entries_checked": 60000, "result_vectors_checked": 150000,
-                         "algorithm_vectors_checked": 100000, "nested_handoffs": 5000, "nested_rows_after_handoff": 30000, "__nontrivial__": 8000}}
+                         "algorithm_vectors_checked": 100000, "nested_handoffs": 5000, "nested_rows_after_handoff": 30000, "explicit_start_vector": 1500, "__nontrivial__": 8000}}
 BOUNDS = {"quick": {"Vmax": 4}, "thorough": {"Vmax": 5}}
 METHODS = ["scripted", "slsqp", "l-bfgs-b", "nelder-mead", "powell", "de", "de_vec"]
 
@@ -155,6 +155,14 @@ def run_case(case, obs):
     ev = ens.RecordingEvaluator(spec)
     mon = Monitor(obs, ev, tv)
     ref_user = np.array(spec["x0"])
+    start = None
+    if tspec is None and rng.random() < 0.5:
+        # the step is started from explicitly passed variables (as later steps of a plan are): those are the starting values
+        start = ref_user + rng.uniform(-0.04, 0.04, size=V)
+        if spec.get("lb") is not None:
+            start = np.clip(start, np.asarray(spec["lb"]) + 1e-6, np.asarray(spec["ub"]) - 1e-6)   # not exactly on a bound: SciPy's DE rejects x0 there by rounding
+        ref_user = start.copy()
+        obs.count("explicit_start_vector")
     mon.stack.append({"mask": mask, "ref": ref_user, "name": "step"})
     ctx = OptimizerContext(evaluator=mon, plugin_manager=ens.plugin_manager())
     state = {"ok": True}
@@ -175,6 +183,9 @@ def run_case(case, obs):
     def handler(name, orig, args, kw):
         x0 = np.asarray(kw.get("x0"))
         obs.count("algorithm_vectors_checked")
+        if tv is None and x0.shape == (nfree,) and not np.array_equal(x0, ref_user[mask]):
+            obs.violation("algorithm_start_is_not_the_free_part_of_the_start_vector", x0=x0, start=ref_user, mask=mask)
+            return None
         if x0.shape != (nfree,):
             obs.violation("algorithm_sees_fixed_variables", x0_shape=list(x0.shape), nfree=nfree)
             return None
@@ -222,7 +233,10 @@ def run_case(case, obs):
         return None
 
     with scipy_hook.active(handler) as hook:
-        plan.run_step(step, config=cfgd, transforms=transforms)
+        if start is not None:
+            plan.run_step(step, config=cfgd, transforms=transforms, variables=start)
+        else:
+            plan.run_step(step, config=cfgd, transforms=transforms)
     if hook.entered < 1:
         obs.count("interceptor_not_entered")
     if (~mask).any() and ev.calls:
